@@ -92,6 +92,12 @@ def run_shard(args):
 
 
 def sweep(ctx, parts, make):
+    # the constructive enumeration of sweep_fast visits exactly the applications of a part; the
+    # filtering loop of run_shard above (kept for reference / cross-checking) visits the full product
+    # in every shard, which dominates for depth-3 parts with max_new
+    if not __import__("os").environ.get("VERIF_SLOW_SWEEP"):
+        from . import sweep_fast
+        return sweep_fast.sweep(ctx, parts, make)
     shards = []
     del _PARTS[:]
     _PARTS.extend(parts)
